@@ -777,6 +777,8 @@ def run(ctx):
     ctx.do(r6_6)
     ctx.do(r6_7)
     ctx.do(r6_8)
+    from . import c01
+    ctx.do(c01.r1_5)
     # R6.5 = C08 R8.1 (a non-BadCommand exception from parse() skips every reply path); admission relation and
     # release-before-acquire are necessary for every command to be answered without the watchdog
     from . import c08, c10
